@@ -19,6 +19,7 @@ import (
 
 	"github.com/fasthttp/websocket"
 	"github.com/hprose/hprose-golang/v3/rpc/core"
+	"github.com/hprose/hprose-golang/v3/rpc/plugins/limiter"
 	"github.com/hprose/hprose-golang/v3/rpc/plugins/oneway"
 	"github.com/hprose/hprose-golang/v3/rpc/plugins/timeout"
 	"pgregory.net/rapid"
@@ -150,8 +151,12 @@ func Big(n int) string { return strings.Repeat("x", n) }
 
 func Unencodable() interface{} { return make(chan int) }
 
-func newFaultService() *core.Service {
+func newFaultService(outer ...core.PluginHandler) *core.Service {
 	s := core.NewService()
+	// plugins that sit outside the ones that fail
+	for _, h := range outer {
+		s.Use(h)
+	}
 	s.AddFunction(Gated, "gated")
 	s.AddFunction(Quick, "quick")
 	s.AddFunction(Boom, "boom")
@@ -219,12 +224,22 @@ func setup() {
 	for _, kind := range []string{"tcp", "http", "mock"} {
 		endpoints = append(endpoints, newEndpointWith(kind, 0, "oneway"))
 	}
+	for _, kind := range []string{"tcp", "http", "mock", "ws"} {
+		endpoints = append(endpoints, newEndpointWith(kind, 0, "limiter"))
+	}
 }
 
 func newEndpoint(kind string, pool int) *endpoint { return newEndpointWith(kind, pool, "") }
 
+const limiterSlots = 4
+
 func newEndpointWith(kind string, pool int, plugin string) *endpoint {
-	s := newFaultService()
+	var outer []core.PluginHandler
+	if plugin == "limiter" {
+		// a concurrent limiter as the outermost IO plugin: a request that fails below it must give its slot back
+		outer = append(outer, limiter.NewConcurrentLimiter(limiterSlots, 1500*time.Millisecond))
+	}
+	s := newFaultService(outer...)
 	if plugin == "execute-timeout" {
 		s.Use(timeout.New(10 * time.Second))
 	}
@@ -681,6 +696,28 @@ func runCase(ep *endpoint, f fault, inflight bool, repeat int) string {
 		}
 		if (err != nil || s != "q:"+tag) && problem == "" {
 			problem = fmt.Sprintf("a call of %s issued after the fault returned %q, %v", w.name, s, err)
+		}
+	}
+	if ep.plugin == "limiter" && problem == "" {
+		// every slot of the limiter must be available again: that many calls can be in flight at once
+		drainArrived()
+		tags := make([]string, limiterSlots)
+		done := make(chan error, limiterSlots)
+		for i := range tags {
+			tags[i] = fmt.Sprintf("slot%d-%d", id, i)
+			go func(tag string) { _, err := ep.pb.Gated(tag); done <- err }(tags[i])
+		}
+		if !waitArrivals(limiterSlots, 3*time.Second) {
+			problem = fmt.Sprintf("after the fault fewer than %d calls can be in flight behind the concurrent limiter of %d: a failed request kept its slot", limiterSlots, limiterSlots)
+		}
+		for _, tag := range tags {
+			release(tag)
+		}
+		for range tags {
+			select {
+			case <-done:
+			case <-time.After(5 * time.Second):
+			}
 		}
 	}
 	return problem
